@@ -3087,6 +3087,11 @@ class SEVM:
             storages=pre_ex.storages.copy(),
             balances=pre_ex.balances.copy(),
         )
+
+        # the transaction itself moves msg.value from the sender to the target
+        # (for nested calls this is done by call(), but there is no CALL instruction at the top level)
+        self.transfer_value(ex0, message.caller, message.target, uint256(message.value))
+
         yield from self.run(ex0)
 
     def run(self, ex0: Exec) -> Iterator[Exec]:
